@@ -6,6 +6,11 @@ the same order, same exits); positions of the rewritten nodes are those of the s
           if C: break     ==>       rest            (loop without an else clause; `continue` in rest re-tests C in both)
           rest
       (`not (not X)` is written X: a while test is only used for its truth value)
+
+  N2  yield from (E for t in IT if C)   ==>   for t in IT:          (statement position, synchronous generator, one `for`
+                                                  if C: yield E      clause; only when the names bound by `t` occur nowhere
+                                                                     else in the function, so that the loop variable
+                                                                     leaking into the function scope changes nothing)
 """
 from __future__ import annotations
 
@@ -33,7 +38,47 @@ class _Normaliser(ast.NodeTransformer):
         return node
 
 
+def _bound_names(t: ast.expr):
+    return {n.id for n in ast.walk(t) if isinstance(n, ast.Name)}
+
+
+class _YieldFromGenexp(ast.NodeTransformer):
+    def __init__(self, fn: ast.AST) -> None:
+        self.fn = fn
+
+    def visit_FunctionDef(self, node):
+        return node if node is not self.fn else self.generic_visit(node)
+
+    visit_AsyncFunctionDef = visit_Lambda = visit_ClassDef = lambda self, node: node  # noqa: E731
+
+    def visit_Expr(self, node: ast.Expr) -> ast.AST:
+        v = node.value
+        if not (isinstance(v, ast.YieldFrom) and isinstance(v.value, ast.GeneratorExp) and len(v.value.generators) == 1 and not v.value.generators[0].is_async):
+            return node
+        g = v.value
+        c = g.generators[0]
+        names = _bound_names(c.target)
+        inside = {id(n) for n in ast.walk(g)}
+        if any(isinstance(n, ast.Name) and n.id in names and id(n) not in inside for n in ast.walk(self.fn)):
+            return node
+        if any(isinstance(n, ast.arg) and n.arg in names for n in ast.walk(self.fn)):
+            return node
+        if any(isinstance(n, (ast.Yield, ast.YieldFrom, ast.Await, ast.NamedExpr)) for n in ast.walk(g)):
+            return node
+        inner: ast.stmt = ast.copy_location(ast.Expr(value=ast.copy_location(ast.Yield(value=g.elt), g.elt)), g.elt)
+        for cond in reversed(c.ifs):
+            inner = ast.copy_location(ast.If(test=cond, body=[inner], orelse=[]), cond)
+        return ast.copy_location(ast.For(target=c.target, iter=c.iter, body=[inner], orelse=[], type_comment=None), node)
+
+
+class _PerFunction(ast.NodeTransformer):
+    def visit_FunctionDef(self, node: ast.FunctionDef) -> ast.AST:
+        self.generic_visit(node)
+        return _YieldFromGenexp(node).visit(node)
+
+
 def normalise(tree: ast.Module) -> ast.Module:
     tree = _Normaliser().visit(tree)
+    tree = _PerFunction().visit(tree)
     ast.fix_missing_locations(tree)
     return tree
